@@ -116,6 +116,33 @@ func loadProg(repo string, overlayRoot string) *Prog {
 	}
 	for _, pk := range p.Pkgs {
 		for _, f := range pk.Syntax {
+			// role index: boolean variables that receive the `ok` of a type assertion / map lookup / channel receive
+			ast.Inspect(f, func(x ast.Node) bool {
+				as, ok := x.(*ast.AssignStmt)
+				if !ok || len(as.Lhs) != 2 || len(as.Rhs) != 1 {
+					return true
+				}
+				kind := ""
+				switch r := ast.Unparen(as.Rhs[0]).(type) {
+				case *ast.TypeAssertExpr:
+					kind = "typeassert"
+				case *ast.IndexExpr:
+					kind = "lookup"
+				case *ast.UnaryExpr:
+					if r.Op == token.ARROW {
+						kind = "recv"
+					}
+				}
+				if kind == "" {
+					return true
+				}
+				if id, ok := as.Lhs[1].(*ast.Ident); ok {
+					if o := pk.TypesInfo.ObjectOf(id); o != nil {
+						commaOkKind[o] = kind
+					}
+				}
+				return true
+			})
 			for _, d := range f.Decls {
 				fd, ok := d.(*ast.FuncDecl)
 				if !ok {
@@ -526,3 +553,7 @@ func keysOf(obs []*Obligation) []string {
 	}
 	return ks
 }
+
+// commaOkKind: role of boolean variables assigned as the second value of a type
+// assertion ("typeassert"), a map lookup ("lookup") or a channel receive ("recv").
+var commaOkKind = map[types.Object]string{}
